@@ -30,11 +30,11 @@ func C01(r *core.Report) {
 	r.Floor("C01.R6", 3)
 	c01SharedWrites(r)
 	c01WriterLifecycle(r)
-	r.Floor("C01.R1", 25)
+	r.Floor("C01.R1", 12)
 	r.Floor("C01.R2", 5)
 	r.Floor("C01.R3", 12)
 	r.Floor("C01.R4", 1)
-	r.Floor("C01.R5", 10)
+	r.Floor("C01.R5", 6)
 }
 
 func c01Offsets(r *core.Report) {
